@@ -1,7 +1,7 @@
 (* Corr.v — comparison of model outputs with the implementation's observables,
    evaluated by vm_compute from generated case files (definitions only). *)
 From Coq Require Import ZArith List Bool Lia.
-From Dendro Require Import Base Tree Grid Criteria Compute Index Prune PruneGhost Newick IO DEq Cache Plot Moments Stats Catalog Flux Viewer.
+From Dendro Require Import Base Tree Grid GridIso Criteria Compute Index Prune PruneGhost Newick IO DEq Cache Plot Moments Stats Catalog Flux Viewer.
 Import ListNotations.
 Open Scope Z_scope.
 
@@ -167,3 +167,39 @@ Definition viewer_view (f : list tree) (views : list Z) (slice : Z) (es : list V
   let st := Viewer.run f views slice es in
   (map (fun j => art_view (Viewer.aget (Viewer.v_art st) j Viewer.no_artifacts)) [1; 2; 3],
    (Viewer.v_slice st, zlen (Viewer.v_notified st))).
+
+(* ---- relabellings of the pixels (C16 / C17): the maps of GridIso.v against numpy's
+   flip / roll / pad / swapaxes / expand_dims on an index array *)
+Inductive relab : Type :=
+| RFlip (a : nat) | RRoll (a : nat) (k : nat) | RPad (a : nat) (w w' : Z) | RSwap (a : nat) | RUnit (a : nat).
+
+Fixpoint set_nth (a : nat) (x : Z) (l : list Z) : list Z :=
+  match a, l with
+  | O, _ :: r => x :: r
+  | S a', y :: r => y :: set_nth a' x r
+  | _, [] => []
+  end.
+
+Definition relab_shape (shape : list Z) (r : relab) : list Z :=
+  match r with
+  | RFlip _ | RRoll _ _ => shape
+  | RPad a w w' => set_nth a (nth a shape 0 + w + w') shape
+  | RSwap a => swapped a shape
+  | RUnit a => inserted a 1 shape
+  end.
+
+Definition relab_map (shape : list Z) (r : relab) : Z -> Z :=
+  match r with
+  | RFlip a => axis_map a shape shape (flip (nth a shape 0))
+  | RRoll a k => axis_map a shape shape (iter_map k (rot1 (nth a shape 0)))
+  | RPad a w w' => axis_map a shape (relab_shape shape r) (pad w)
+  | RSwap a => swap_at a shape
+  | RUnit _ => fun p => p
+  end.
+
+(* (shape, relabelling, new shape, new flat position of every pixel) *)
+Definition relab_case : Type := list Z * relab * list Z * list Z.
+Definition relab_ok (c : relab_case) : bool :=
+  let '(shape, r, shape', pos) := c in
+  list_eqb Z.eqb (relab_shape shape r) shape' &&
+  list_eqb Z.eqb (map (relab_map shape r) (zseq (Z.to_nat (size shape)))) pos.
